@@ -31,6 +31,11 @@ var Leaves = []Leaf{
 	{Text: "/re+/", Kind: "regexp", Str: "/re+/"},
 	{Text: `a\:b`, Kind: "str", Str: "a:b"},
 	{Text: "é日", Kind: "str", Str: "é日"},
+	{Text: `"a*b"`, Kind: "str", Str: "a*b"},
+	{Text: `"wh?t"`, Kind: "str", Str: "wh?t"},
+	{Text: `"/sl/"`, Kind: "str", Str: "/sl/"},
+	{Text: "9007199254740993", Kind: "int", Int: 9007199254740993},
+	{Text: "-9223372036854775807", Kind: "int", Int: -9223372036854775807},
 }
 
 // FieldLeaves are leaves used in field position (plain words, a quoted name, a numeric name).
